@@ -96,7 +96,7 @@ theorem cholesky_jitter_restores_partial (σ : Store) (args : Frame)
     (h5 : (σ cid_cholesky_jitter fid__global_double_value).isSome)
     (h6 : (σ cid_cholesky_jitter fid__global_half_value).isSome) :
     (Prog.run false (.withC c_cholesky_jitter args .skip) σ []).store = σ := by
-  simp only [Prog.run, c_cholesky_jitter, execAll, Stmt.exec, Expr.eval, setF_apply, Nat.reduceEqDiff, ↓reduceIte,
+  simp only [Prog.run, c_cholesky_jitter, execAll, Stmt.exec, Expr.eval, Cond.eval, setF_apply, Nat.reduceEqDiff, ↓reduceIte,
     if_true, if_false, ite_fst, ite_snd, ite_env_store, ite_env_self, ite_env_args, ite_env_strict, ite_self, ite_fun_apply,
     Bool.false_eq_true]
   apply store_ext; intro c f
